@@ -241,7 +241,7 @@ fn ints64(k: u32) -> Vec<u64> {
     v.dedup();
     v
 }
-fn ints128(k: u32) -> Vec<u128> {
+pub fn ints128(k: u32) -> Vec<u128> {
     let mut v = run_bounded_128(k);
     for j in 0..128u32 {
         let p = 1u128 << j;
